@@ -265,6 +265,10 @@ def replay_obligation(pid, prop, o, w):
     confirmed = False
     try:
         native = native_replay(o, prop)
+        if native is None and hasattr(prop, "replay_extra"):
+            # obligations produced by the property module itself (finite checks, lemmas): the
+            # module may know how to look for a failing input on the real code
+            native = prop.replay_extra(o)
         payload["native"] = native
         confirmed = bool(native and native.get("confirmed"))
     except Exception as e:  # replay trouble never turns into a verdict by itself
